@@ -137,7 +137,9 @@ inline void registerCutter(Registry& reg, const Manifold& res) {
 }
 
 // ---------------------------------------------------------------- originals
-struct GenOpts { bool smooth = false; bool normals = false; int maxTri = 1500; };
+struct GenOpts { bool smooth = false; bool normals = false; int maxTri = 1500;
+  bool seamRefine = false;   // focus: originals are user meshes with >= 1 channel, own face IDs and PARTIAL seams; Refine(2) is frequent
+};
 
 inline Manifold primitive(Rng& r, std::string& d) {
   switch (r.below(5)) {
@@ -154,12 +156,12 @@ struct UserMesh { MeshGL64 g; bool affine = false; bool valid = false; int runMo
 // Turn a shape into a user-supplied MeshGL64: k property channels, face-ID mode, optional
 // per-triangle vertex duplication (property seam) with merge vectors, 1 or 2 runs with
 // reserved original IDs.
-inline UserMesh userMesh(Rng& r, const Manifold& shape, std::string& d) {
+inline UserMesh userMesh(Rng& r, const Manifold& shape, std::string& d, bool seamFocus = false) {
   UserMesh um; MeshGL64 g0 = shape.GetMeshGL64();
   if (g0.NumTri() < 4) return um;
-  const int k = (int)r.below(5);
-  const int fmode = (int)r.below(3);          // 0 none, 1 own face ID per triangle, 2 coplanar grouping made explicit
-  const int seamMode = k > 0 && r.below(5) < 2 ? 1 + (int)r.below(2) : 0;  // 1: duplicate the vertices per triangle; 2: PARTIAL seams (a corner gets its own property
+  const int k = seamFocus ? 1 + (int)r.below(3) : (int)r.below(5);
+  const int fmode = seamFocus ? 1 : (int)r.below(3);          // 0 none, 1 own face ID per triangle, 2 coplanar grouping made explicit
+  const int seamMode = seamFocus ? 2 : k > 0 && r.below(5) < 2 ? 1 + (int)r.below(2) : 0;  // 1: duplicate the vertices per triangle; 2: PARTIAL seams (a corner gets its own property
                                                                           // vertex with probability 1/2: seams that end at a vertex, edges shared at one end and split at the other)
   const bool seam = seamMode != 0;
   const int runMode = (int)r.below(4);        // 0 no run info, 1 one reserved ID, 2 two reserved IDs, 3 one ID + AsOriginal later
@@ -212,6 +214,7 @@ struct Prog {
   std::string desc;
   std::vector<UserMesh> inputs;  // the user meshes the program imported
   bool smoothed = false;
+  std::vector<Manifold> trace;   // every pool entry in creation order (diagnosis only)
 };
 
 inline Manifold randomTransform(Rng& r, const Manifold& m, std::string& d) {
@@ -231,8 +234,8 @@ inline Prog randomProgram(Rng& r, Registry& reg, const GenOpts& o) {
     d += (i ? " " : "") + std::string("o") + std::to_string(i) + "=";
     Manifold shape = primitive(r, d);
     Manifold m = shape; bool affine = true, userFace = false;
-    if (r.below(3)) {
-      UserMesh um = userMesh(r, shape, d);
+    if (o.seamRefine || r.below(3)) {
+      UserMesh um = userMesh(r, shape, d, o.seamRefine);
       if (um.valid) {
         m = Manifold(um.g); affine = um.affine; userFace = um.userFace; P.inputs.push_back(um);
         if (um.runMode == 3 && r.below(2)) { m = m.AsOriginal(); d += ".asOrig"; userFace = false; }
@@ -258,6 +261,7 @@ inline Prog randomProgram(Rng& r, Registry& reg, const GenOpts& o) {
   auto small = [&](const Manifold& m) { return (int)m.NumTri() <= o.maxTri; };
   for (int s = 0; s < steps; s++) {
     int op = (int)r.below(o.smooth ? 12 : 10);
+    if (o.seamRefine && r.below(3) == 0) op = 7;
     Manifold a = pick(); const size_t ia = lastPick;
     d += " ;";
     A(pool.size() - 1); const size_t poolBefore = pool.size(); uint64_t resMask = A(ia); bool moved = false;
@@ -274,7 +278,7 @@ inline Prog randomProgram(Rng& r, Registry& reg, const GenOpts& o) {
         pool.push_back(Manifold::Compose(v)); break;
       }
       // "!n3": Refine(n) with n >= 3 somewhere in the history
-      case 7: { if (small(a)) { int n = 2 + (int)r.below(3); d += "refine" + std::to_string(n); if (n >= 3) d += "!n3"; pool.push_back(a.Refine(n)); } else { d += "skip"; } break; }
+      case 7: { if (small(a)) { int n = o.seamRefine || r.below(2) ? 2 : 3 + (int)r.below(2); d += "refine" + std::to_string(n); if (n >= 3) d += "!n3"; pool.push_back(a.Refine(n)); } else { d += "skip"; } break; }
       case 8: { d += "asOriginal"; Manifold b = a.AsOriginal(); if (!b.IsEmpty()) { registerSources(reg, b, false); orig.push_back(b); } pool.push_back(b); break; }
       case 9: { d += "xform"; pool.push_back(randomTransform(r, a, d)); moved = true; break; }
       case 10: { d += "smoothOut"; pool.push_back(a.SmoothOut(30 + 40 * unit(r), 0.3 * unit(r))); P.smoothed = true; break; }
@@ -286,7 +290,7 @@ inline Prog randomProgram(Rng& r, Registry& reg, const GenOpts& o) {
     }
     A(pool.size() - 1); if (pool.size() > poolBefore && !moved) anc[pool.size() - 1] = resMask;   // instances picked on the way keep their own bit
   }
-  P.result = pool.back();
+  P.result = pool.back(); P.trace = pool;
   if (P.result.IsEmpty() && pool.size() > 2) for (size_t i = pool.size(); i-- > 0;) if (!pool[i].IsEmpty()) { P.result = pool[i]; d += " (result=v" + std::to_string(i) + ")"; break; }
   return P;
 }
